@@ -933,17 +933,17 @@ class PDSLabelEncoder(ODLEncoder):
 
         if grp_count > 0 and obj_count < 1:
             if self.convert_group_to_object:
-                for k, v in module.items():
+                for i, (k, v) in enumerate(module.items()):
                     # First try to convert any GROUPs that would not
                     # be valid PDS GROUPs.
                     if isinstance(v, self.grpcls) and not self.is_PDSgroup(v):
-                        module[k] = self.objcls(v)
+                        self._replace_item(module, i, k, self.objcls(v))
                         break
                 else:
                     # Then just convert the first GROUP
-                    for k, v in module.items():
+                    for i, (k, v) in enumerate(module.items()):
                         if isinstance(v, self.grpcls):
-                            module[k] = self.objcls(v)
+                            self._replace_item(module, i, k, self.objcls(v))
                             break
                     else:
                         raise ValueError(
@@ -964,6 +964,24 @@ class PDSLabelEncoder(ODLEncoder):
             return s.replace("\t", (" " * self.tab_replace))
         else:
             return s
+
+    @staticmethod
+    def _replace_item(module, index: int, key, value) -> None:
+        """Replaces the value of the item at position *index* (whose key
+        is *key*) in *module*.
+
+        Plain assignment, ``module[key] = value``, is not enough when
+        *module* is a multi-dict that holds *key* more than once: it
+        would replace the first item with that key (not necessarily this
+        one) and delete the others.
+        """
+        items = list(module.items())
+        if [k for k, _ in items].count(key) == 1:
+            module[key] = value
+        else:
+            items[index] = (key, value)
+            module.clear()
+            module.extend(items)
 
     def is_PDSgroup(self, group: abc.Mapping) -> bool:
         """Returns true if the dict-like *group* qualifies as a PDS Group,
